@@ -41,6 +41,27 @@ DESC = {
  "C16-2": ("unreadable sources silently skipped (`flat_map`)", "unreadable path mixed with a readable one"),
  "C16-3": ("HashSet introduced for tuple elements: item order depends on the hash seed", "tuple with >=2 different object element shapes"),
  "C16-4": ("file opened without truncate", "output file already exists and is longer"),
+ "C09-1": ("Array+Tuple tail collapsed with field shorthand: the element union inherits the array's optional flag", "tuple merged with an array, then `null`, then the tuple repeated"),
+ "C09-2": ("OneOf + T arm: `optional && !variants.contains(Null)` evaluated before Null is inserted", "union formed first, the null (or missing key) after it, then a repeated scalar"),
+ "C09-3": ("Object+Object fast path for equal contents takes the flag from the incoming side only", "record, then `null`, then the same record again"),
+ "C09-4": ("guard arm `tuple.is_subset(&array) => array` and the element type inserted unflattened again", "tuple holding `[]` repeated after an array: grows without bound"),
+ "C04-1": ("check_string: valid range replaced by `!c.is_control()`", "raw DEL or C1 character (U+007F..U+009F) inside a string is rejected"),
+ "C04-2": ("parse_cst root scan skips Whitespace but not Newline", "LF / CR / CRLF before the first token"),
+ "C04-3": ("nesting cap tested per bracket kind", "mixed [ / { nesting of depth 257..512"),
+ "C04-4": ("is_superset parses directly and drops the diagnostics", "non-JSON of a recoverable class through is_superset only"),
+ "C04-5": ("exponent digits `(0|[1-9][0-9]*)`", "`1e05`, `1E+00`"),
+ "C05-1": ("invalid-escape diagnostic range ends at `j + 1` again", "backslash followed by a multi-byte character: panic on slicing"),
+ "C05-2": ("has_errors cuts the fragment by characters (`chars().skip().take()`)", "non-ASCII text before/inside the error: fragment != input[range]"),
+ "C05-3": ("nesting cap only tested for `[`", "`{\"a\":` repeated 100000 times: stack overflow"),
+ "C05-4": ("value path: element type of a uniform array re-converted from the first item (2^depth)", "arrays nested ~60 deep"),
+ "C07-1": ("parse_cst root scan skips Whitespace but not Newline", "line break before the root value"),
+ "C07-2": ("parse_string finds the closing quote with an `escaped` flag", "string ending in an even number of backslashes: `\"C:\\\\\"`"),
+ "C07-3": ("duplicate-key lookup through `range(&key..)` + `starts_with`", "one key a proper prefix of another, the longer one first"),
+ "C07-4": ("MAX_TOKENS = 65536 guard in tokenize", "more than 65 536 tokens (e.g. 32 768 array elements)"),
+ "C13-1": ("optional Object/OneOf referenced as `Option<name>` with the `Optional` prefix trimmed", "optional nested object: referenced type undefined (E0425)"),
+ "C13-2": ("`Default` derived for structs named Optional…", "optional nested object holding a required nested object (E0277) — rustc only"),
+ "C15-1": ("optional array member rendered `#[serde(default)] Vec<T>`", "list member absent in one source and null in another"),
+ "C15-2": ("Tuple arm of shape_representation ignores `optional`", "tuple member absent in one source / null in another"),
 }
 
 def main():
